@@ -5,6 +5,7 @@ open EaselModel EaselModel.Proto EaselModel.Random EaselModel.Shuffle
 
 structure S where
   r : Option Rng := none
+  r64 : Option Rng64 := none
 
 def hexA (a : Bytes) : String := hexOrDash a.toList
 
@@ -49,7 +50,22 @@ def step (s : S) (line : String) : S × String :=
   match ws with
   | [] => (s, "bad-op")
   | op :: _ =>
-    if op == "seed" || op == "seedfast" then
+    if op == "seed64" then
+      match argNat? ws "s" with
+      | some sd => if sd = 0 then (s, "bad-op") else ({ s with r64 := some (Rng64.create (UInt64.ofNat sd)) }, "ok")
+      | none => (s, "bad-op")
+    else if op == "peek64" then
+      match s.r64 with
+      | some r => let (x, r') := r.next; ({ s with r64 := some r' }, s!"ok {x}")
+      | none => (s, "bad-op")
+    else if op == "dshuffle64" || op == "fshuffle64" || op == "ishuffle64" || op == "lshuffle64" then
+      match s.r64 with
+      | some r =>
+        let v : Array Int := (if (arg? ws "v").getD "-" == "-" then [] else (commaFields ((arg? ws "v").getD "")).filterMap String.toInt?).toArray
+        let (o, r') := vecShuffle64 v r
+        ({ s with r64 := some r' }, if o.isEmpty then "ok -" else "ok " ++ ",".intercalate (o.toList.map toString))
+      | none => (s, "bad-op")
+    else if op == "seed" || op == "seedfast" then
       match argNat? ws "s" with
       | some sd => if sd = 0 then (s, "bad-op") else
           ({ s with r := some (Rng.create (if op == "seed" then .mersenne else .fast) (UInt32.ofNat sd)) }, "ok")
@@ -66,6 +82,23 @@ def step (s : S) (line : String) : S × String :=
         let r1 := if r.st.mti ≥ 624 then (r.next).2 else r
         let raw := UInt32.ofNat ((argNat? ws "raw").getD 0)
         fin "ok" { r1 with st := { r1.st with mt := r1.st.mt.setIfInBounds r1.st.mti raw } }
+      else if op == "sample" then
+        match rsqSample ((argNat? ws "flag").getD 0) ((argNat? ws "L").getD 0) r with
+        | (some o, r') => fin ("ok " ++ hexA (o.map UInt8.ofNat)) r'
+        | (none, r') => fin "einval" r'
+      else if op == "sampledirty" then
+        let L := (argNat? ws "L").getD 0
+        let pv := (arg? ws "p").getD "none"
+        let amino := (arg? ws "abc").getD "dna" == "amino"
+        let (p, r1) : List Float × Rng := if pv == "none" then
+            let (pa, r1) := dirtyP (if amino then 20 else 4) (if amino then 29 else 18) r; (pa.toList, r1)
+          else (bitsList64 pv, r)
+        let (o, r') := iidLoop p L r1 #[]
+        let showP : String := if pv == "none" && (argNat? ws "ret").getD 0 == 1 then
+            " p=" ++ ",".intercalate (p.map fun x => String.ofList (Nat.toDigits 16 x.toBits.toNat)) else ""
+        match o with
+        | some codes => fin ("ok " ++ hexA (ofCodesDigital codes) ++ showP) r'
+        | none => fin "fatal" r'
       else if op == "cshuffle" then
         match argBytes ws "s" with
         | some a => let (o, r') := cShuffle a r; fin ("ok " ++ hexA o) r'
